@@ -507,6 +507,15 @@ fn far_peer_advertisements(run: &Run) {
                     }
                 } else if after != before {
                     acted_on_close += 1;
+                } else if lname == "one key next to the sender" {
+                    // a record nobody advertised before (its address is this sender's own), no range set, nothing held:
+                    // a list from one of the K closest peers has to be acted on, whichever of the K it is
+                    run.violation(
+                        "only-close-peers-advertise",
+                        "close-peer-list-ignored",
+                        format!("a one-key list from a routing-table peer among the K closest (rank {:?} of {}) left the fetcher unchanged at {before:?}: the record is never fetched from it", close.iter().position(|c| c == p), close.len()),
+                        json!({"engine": "sequential", "routing_table_peers": peers.len(), "k_closest": close.len(), "list": lname, "sender_rank_among_closest": close.iter().position(|c| c == p)}),
+                    );
                 }
             }
         }
